@@ -25,11 +25,15 @@
      C05_accepts           well formed -> accepted, when no numeric goal repeats an argument (outside class D07)
      C05_iff_partial       accepted <-> well formed, outside the classes D19d and D07(goal)
      C05_rejects           every ill-formed text is rejected outside class D19d: every single-point corruption
-     C05_faithful_partial  accepted -> faithful, when no initial fluent has a repeated argument (outside class D07) *)
+     C05_faithful_partial  accepted -> faithful, when no initial fluent has a repeated argument (outside class D07)
+     C05_faithful_safe     ... and more generally when every initial fluent is written the way the library prints it
+                           (repeated names first: (f a a), (g a a b)) and no two different fluents of one function have
+                           the same distinct arguments ([safe_repeats], decidable; C05_no_repeats_safe: it covers the
+                           former; C05_safe_repeats_example in Proofs/C05_Main.v) *)
 From Coq Require Import List String Bool PrimFloat.
 From Verif Require Import Base.Result Base.Str Base.Sexp Base.PyDict Model.Domain Model.NumExpr Model.Problem
   Model.ProblemObs Spec.Pddl Spec.Grammar Spec.Problem
-  Proofs.C05_Items Proofs.C05_Parse Proofs.C05_Faithful Proofs.C05_Examples Proofs.C05_Main.
+  Proofs.C05_Items Proofs.C05_Parse Proofs.C05_Faithful Proofs.C05_Repeats Proofs.C05_Examples Proofs.C05_Main.
 Import ListNotations.
 Open Scope string_scope.
 
@@ -63,6 +67,15 @@ Theorem C05_faithful_partial : forall num dom, dom_ok dom -> num_ok num -> foral
   pdump_equiv (dump_problem pb) (spec_dump num sp) = true.
 Proof. exact C05_faithful_partial_lemma. Qed.
 
+Theorem C05_faithful_safe : forall num dom, dom_ok dom -> num_ok num -> forall e sp pb,
+  read_problem num e = Some sp -> safe_repeats sp = true ->
+  parse_problem cfg_fixed num dom e = Ok pb ->
+  pdump_equiv (dump_problem pb) (spec_dump num sp) = true.
+Proof. exact C05_faithful_safe_lemma. Qed.
+
+Theorem C05_no_repeats_safe : forall sp, no_repeats sp = true -> safe_repeats sp = true.
+Proof. exact no_repeats_safe. Qed.
+
 Theorem C05_iff_refuted : ~ C05_iff_statement cfg_fixed.
 Proof. exact C05_iff_refuted_lemma. Qed.
 
@@ -95,6 +108,8 @@ Print Assumptions C05_wf_split.
 Print Assumptions C05_iff_partial.
 Print Assumptions C05_rejects.
 Print Assumptions C05_faithful_partial.
+Print Assumptions C05_faithful_safe.
+Print Assumptions C05_no_repeats_safe.
 Print Assumptions C05_iff_refuted.
 Print Assumptions C05_faithful_refuted.
 Print Assumptions C05_accepts_refuted.
